@@ -49,6 +49,7 @@ func genC11(g *simrt.Tape, tier string) any {
 		var c ConnSc
 		if i > 0 && g.Draw(8) == 0 {
 			c.DialFail = true
+			c.DialErr = []string{"", "", "eof", "closed", "timeout"}[g.Draw(5)]
 		}
 		nf := g.Draw(3)
 		for f := 0; f < nf; f++ {
@@ -131,7 +132,7 @@ func execC11(x *X, scAny any) {
 	// (h) "at the latest the next call uses a fresh connection and succeeds": one fault costs at most one call.
 	// Calls that carry their own cancellation or deadline, and calls started after Close, are not counted.
 	budget := 0
-	for _, k := range []string{"eof", "reset", "closed", "epipe", "short-write", "dial-fail", "server-close-after-reply", "server-reset-after-reply", "server-partial-reply", "server-close-before-reply", "server-no-reply", "data+eof"} {
+	for _, k := range []string{"eof", "reset", "closed", "epipe", "short-write", "dial-fail", "server-close-after-reply", "server-reset-after-reply", "server-partial-reply", "server-close-before-reply", "server-no-reply", "data+eof", "server-undecodable-message"} {
 		budget += x.S.Faults[k]
 	}
 	failed := 0
@@ -234,6 +235,22 @@ func c11Floor(tier string) []*ClientSc {
 					bh[k] = ReqBehav{Partial: part, ResetAfter: rst}
 					out = append(out, &ClientSc{Prop: "C11", Enforce: enforce, Suffix: 3, FinalClose: true, Behav: bh, Chunk: simnet.ChunkRandom,
 						Callers: []CallerSc{{Calls: []CallSc{{Kind: "request"}, {Kind: "request"}, {Kind: "batch", N: 2}}}}})
+				}
+			}
+		}
+		// the exchange fails (server gone after the k-th reply), and the re-dial inside the same call fails too, with
+		// every kind of dial error; the dial after that is healthy
+		for k := 0; k < 3; k++ {
+			for _, kind := range []string{"", "eof", "closed", "timeout"} {
+				for _, two := range []bool{false, true} {
+					bh := make([]ReqBehav, 8)
+					bh[k] = ReqBehav{CloseAfter: true}
+					conns := []ConnSc{{}, {DialFail: true, DialErr: kind}}
+					if two {
+						conns = append(conns, ConnSc{DialFail: true, DialErr: kind})
+					}
+					out = append(out, &ClientSc{Prop: "C11", Enforce: enforce, Suffix: 3, FinalClose: true, Behav: bh, Conns: conns,
+						Callers: []CallerSc{{Calls: []CallSc{{Kind: "request"}, {Kind: "request"}, {Kind: "batch", N: 2}, {Kind: "request"}}}}})
 				}
 			}
 		}
